@@ -116,4 +116,101 @@ Section Append.
     rewrite <- app_assoc. cbn [app length f_content fresh_file].
     rewrite app_length. cbn [length]. reflexivity.
   Qed.
+  (** ** C11 across two instances: copy_file / move_file from one MemoryFS to another go through the
+      stream path (open, create, io::copy, publish on drop): the destination holds exactly the
+      source's bytes, the source is kept (its access time stamped by the read) / gone, nothing else
+      changes in either filesystem, both handles are closed *)
+  Lemma remove_file1 (s0 s1 : mstate) hs q g :
+    s1 !! q = Some g -> f_type g = File ->
+    run bhandler (vp_remove_file v1 q) (S2 s0 s1 hs) = (S2 s0 (delete q s1) hs, Ok tt).
+  Proof.
+    intros Hq Hg. cbn. unfold mem_fs_call. rewrite ms_remove_file. cbn [msec_sem]. rewrite Hq, Hg. reflexivity.
+  Qed.
+
+  Lemma stream_copy_across (s0 s1 : mstate) hs (p q : path) f (after : bprog (res unit)) :
+    s1 !! p = Some f -> f_type f = File ->
+    q <> [] -> is_dir s0 (removelast q) -> s0 !! q = None ->
+    run bhandler (stream_copy v1 p v0 q after) (S2 s0 s1 hs) =
+    (let '(s', r) := run bhandler after
+        (S2 (<[q := fresh_file []]> s0) (<[p := touched f]> s1)
+            (hs ++ [HMemReader (f_content f) (Z.of_nat (length (f_content f)));
+                    HMemWriter 0 q (f_content f) (Z.of_nat (length (f_content f)))])) in
+     run bhandler (let* _ := Call (BH (length hs + 1)%nat HDrop) Ret in
+                   let* _ := Call (BH (length hs) HDrop) Ret in Ret r) s').
+  Proof.
+    intros Hlow Hty Hq Hpar Hup.
+    set (c := f_content f).
+    unfold stream_copy, bind_res. rewrite !run_bind.
+    rewrite (open_file1 s0 s1 hs p f Hlow Hty).
+    set (s1' := <[p := touched f]> s1).
+    rewrite run_bind, (create_file0 lg ft s0 s1' _ q Hq Hpar Hup).
+    rewrite app_length. cbn [length]. rewrite <- app_assoc. cbn [app].
+    assert (L1 : forall (a b : hstate), (hs ++ [a; b]) !! length hs = Some a).
+    { intros a b. rewrite lookup_app_r by lia. now rewrite Nat.sub_diag. }
+    assert (L2 : forall (a b : hstate), (hs ++ [a; b]) !! (length hs + 1)%nat = Some b).
+    { intros a b. rewrite lookup_app_r by lia. replace (length hs + 1 - length hs)%nat with 1%nat by lia. reflexivity. }
+    assert (I1 : forall (a b x : hstate), <[length hs := x]> (hs ++ [a; b]) = hs ++ [x; b]).
+    { intros a b x. rewrite insert_app_r_alt by lia. now rewrite Nat.sub_diag. }
+    assert (I2 : forall (a b x : hstate), <[(length hs + 1)%nat := x]> (hs ++ [a; b]) = hs ++ [a; x]).
+    { intros a b x. rewrite insert_app_r_alt by lia. replace (length hs + 1 - length hs)%nat with 1%nat by lia. reflexivity. }
+    rewrite run_bind. cbn [run bhandler].
+    rewrite (hop_copy2 _ s1' _ (length hs) (length hs + 1)%nat c q (L1 _ _) (L2 _ _) ltac:(lia)).
+    rewrite I1, I2. cbn [fst snd].
+    rewrite run_bind. reflexivity.
+  Qed.
+
+  Lemma drops_after_copy (s0 s1 : mstate) hs (q : path) c (r : res unit) g :
+    s0 !! q = Some g -> f_type g = File ->
+    run bhandler (let* _ := Call (BH (length hs + 1)%nat HDrop) Ret in
+                  let* _ := Call (BH (length hs) HDrop) Ret in Ret r)
+        (S2 s0 s1 (hs ++ [HMemReader c (Z.of_nat (length c)); HMemWriter 0 q c (Z.of_nat (length c))])) =
+    (S2 (<[q := mkMemFile File c (f_created g) (Some TAuto) (f_accessed g)]> s0) s1 (hs ++ [HClosed; HClosed]), r).
+  Proof.
+    intros Hg Hgt.
+    assert (L1 : forall (a b : hstate), (hs ++ [a; b]) !! length hs = Some a).
+    { intros a b. rewrite lookup_app_r by lia. now rewrite Nat.sub_diag. }
+    assert (L2 : forall (a b : hstate), (hs ++ [a; b]) !! (length hs + 1)%nat = Some b).
+    { intros a b. rewrite lookup_app_r by lia. replace (length hs + 1 - length hs)%nat with 1%nat by lia. reflexivity. }
+    assert (I1 : forall (a b x : hstate), <[length hs := x]> (hs ++ [a; b]) = hs ++ [x; b]).
+    { intros a b x. rewrite insert_app_r_alt by lia. now rewrite Nat.sub_diag. }
+    assert (I2 : forall (a b x : hstate), <[(length hs + 1)%nat := x]> (hs ++ [a; b]) = hs ++ [a; x]).
+    { intros a b x. rewrite insert_app_r_alt by lia. replace (length hs + 1 - length hs)%nat with 1%nat by lia. reflexivity. }
+    cbn [bind run bhandler].
+    rewrite (hop_drop_writer2 s0 s1 _ (length hs + 1)%nat q c (Z.of_nat (length c)) g (L2 _ _) Hg Hgt).
+    rewrite I2. cbn [fst snd].
+    rewrite (hop_drop_reader2 _ s1 _ (length hs) c (Z.of_nat (length c)) (L1 _ _)).
+    rewrite I1. reflexivity.
+  Qed.
+
+  Theorem copy_file_across (s0 s1 : mstate) hs (p q : path) f :
+    s1 !! p = Some f -> f_type f = File ->
+    q <> [] -> is_dir s0 (removelast q) -> s0 !! q = None ->
+    run bhandler (vp_copy_file v1 p v0 q) (S2 s0 s1 hs) =
+    (S2 (<[q := fresh_file (f_content f)]> s0) (<[p := touched f]> s1) (hs ++ [HClosed; HClosed]), Ok tt).
+  Proof.
+    intros Hlow Hty Hq Hpar Hup.
+    unfold vp_copy_file, relabel, labelled, bind_res. rewrite !run_bind, exists0, Hup.
+    rewrite bool_decide_eq_false_2 by (intros [? ?]; discriminate).
+    unfold fast_path. cbn [v_id v0 v1 Nat.eqb].
+    rewrite (stream_copy_across s0 s1 hs p q f _ Hlow Hty Hq Hpar Hup). cbn [run].
+    rewrite (drops_after_copy _ _ hs q (f_content f) (Ok tt) (fresh_file [])); [|apply lookup_insert|reflexivity].
+    cbn [run map_err f_created f_accessed fresh_file]. rewrite insert_insert. reflexivity.
+  Qed.
+
+  Theorem move_file_across (s0 s1 : mstate) hs (p q : path) f :
+    s1 !! p = Some f -> f_type f = File ->
+    q <> [] -> is_dir s0 (removelast q) -> s0 !! q = None ->
+    run bhandler (vp_move_file v1 p v0 q) (S2 s0 s1 hs) =
+    (S2 (<[q := fresh_file (f_content f)]> s0) (delete p s1) (hs ++ [HClosed; HClosed]), Ok tt).
+  Proof.
+    intros Hlow Hty Hq Hpar Hup.
+    unfold vp_move_file, relabel, labelled, bind_res. rewrite !run_bind, exists0, Hup.
+    rewrite bool_decide_eq_false_2 by (intros [? ?]; discriminate).
+    unfold fast_path. cbn [v_id v0 v1 Nat.eqb].
+    rewrite (stream_copy_across s0 s1 hs p q f _ Hlow Hty Hq Hpar Hup).
+    rewrite (remove_file1 _ _ _ p (touched f)); [|apply lookup_insert|reflexivity].
+    rewrite delete_insert_delete.
+    rewrite (drops_after_copy _ _ hs q (f_content f) (Ok tt) (fresh_file [])); [|apply lookup_insert|reflexivity].
+    cbn [run map_err f_created f_accessed fresh_file]. rewrite insert_insert. reflexivity.
+  Qed.
 End Append.
